@@ -2,6 +2,7 @@ import ZV.Model.C03
 import ZV.Drv.C23
 /-! line protocol for C03: `c03 csfk|csfkg <kt> <k1> <k2> <k3> <k4> <algo> <signed> <sig> <oracle>` → `ok` / `err` / `panic`;
     `c03 dsasign <P> <Q> <G> <X> <digest> <rnd>` → `ok <r> <s>` (hex as `big.Int.Text(16)`) / `err`;
+    `c03 sparams <x509|ocsp> <label> <req>`, `c03 sigai <oid> <absent|null|pss:h>`, `c03 sigoid <oid>` (signer side);
     `c03 dsaver <P> <Q> <G> <Y> <digest> <r> <s>` → `1` / `0` -/
 namespace ZV.C03
 open ZV
@@ -16,6 +17,7 @@ def parseKey (kt k1 k2 k3 k4 : String) : Option Key :=
   | "ecdsa" => some .ecdsa
   | "aug" => some .augEcdsa
   | "ed" => some .ed25519
+  | "other" => some .other
   | _ => none
 
 /-- `(*big.Int).Text(16)` of a natural number -/
@@ -26,8 +28,63 @@ def csfkLine (kt k1 k2 k3 k4 algo signed sig o : String) : String :=
   | some key, some a, some m, some s => C23.showU (checkSignatureFromKey key a m s (o == "1"))
   | _, _, _, _ => "bad-op"
 
+/-- dotted OID, `-` for the empty one -/
+def showOid (o : List Nat) : String := if o.isEmpty then "-" else String.intercalate "." (o.map toString)
+
+def parseOidArcs : List String → Option (List Nat)
+  | [] => some []
+  | a :: rest =>
+    match a.toNat?, parseOidArcs rest with
+    | some n, some r => some (n :: r)
+    | _, _ => none
+
+def parseOid (s : String) : Option (List Nat) := if s == "-" then some [] else parseOidArcs (s.splitOn ".")
+
+def showParams : Params → String
+  | .absent => "absent"
+  | .null => "null"
+  | .pss h => match pssParamsOf h with
+    | some r => "raw:" ++ toHex (r.1.map UInt8.ofNat)
+    | none => "raw:?"
+
+def parseParams (s : String) : Option Params :=
+  if s == "absent" then some .absent
+  else if s == "null" then some .null
+  else if s.startsWith "pss:" then (s.drop 4).toString.toNat?.map Params.pss
+  else none
+
+def showOpts (o : Bool × Nat) : String := (if o.1 then "1" else "0") ++ ":" ++ toString o.2
+
+/-- `c03 sparams <x509|ocsp> <label> <req>` → `ok <hash> <oid> <params> <written> <pss>:<hash>` / `err` / `panic` -/
+def sparamsLine (pkg label req : String) : String :=
+  match req.toNat? with
+  | none => "bad-op"
+  | some r =>
+    if pkg == "x509" then
+      (match signingParams x509Pkg label r with
+       | .ok sp => "ok " ++ toString sp.hash ++ " " ++ showOid sp.oid ++ " " ++ showParams sp.params ++ " " ++
+           toString (algoFromAI sp.oid sp.params) ++ " " ++ showOpts (signerOpts r sp.hash)
+       | .err => "err"
+       | .panic => "panic")
+    else if pkg == "ocsp" then
+      (match signingParams ocspPkg label r with
+       | .ok sp => "ok " ++ toString sp.hash ++ " " ++ showOid sp.oid ++ " " ++ showParams sp.params ++ " " ++
+           toString (algoFromOID sp.oid) ++ " " ++ showOpts (signerOptsOcsp sp.hash)
+       | .err => "err"
+       | .panic => "panic")
+    else "bad-op"
+
 def handle (args : List String) : String :=
   match args with
+  | ["sparams", pkg, label, req] => sparamsLine pkg label req
+  | ["sigai", oid, par] =>
+    (match parseOid oid, parseParams par with
+     | some o, some p => toString (algoFromAI o p)
+     | _, _ => "bad-op")
+  | ["sigoid", oid] =>
+    (match parseOid oid with
+     | some o => toString (algoFromOID o)
+     | none => "bad-op")
   | ["csfk", kt, k1, k2, k3, k4, algo, signed, sig, o] => csfkLine kt k1 k2 k3 k4 algo signed sig o
   -- `csfkg`: same call; the harness additionally demands acceptance (the signature is the library's own)
   | ["csfkg", kt, k1, k2, k3, k4, algo, signed, sig, o] => csfkLine kt k1 k2 k3 k4 algo signed sig o
